@@ -58,7 +58,7 @@ func c15Run(r *core.Run) {
 	kind := outKinds[t.Int(3, "c15.kind")]
 	signed := t.Bool("c15.signed")
 	clockMode := t.Int(5, "c15.clockmode")
-	if !o.Build() {
+	if !o.PreHistory(r) || !o.Build() {
 		return
 	}
 	switch clockMode {
